@@ -1233,7 +1233,7 @@ fn emit_instance_case(id: &str, family: &str, variant: &str, bases: &[&str], fns
 // identifiers the real Go AST declares.
 
 /// (kind, program with @A@ / @B@, where go_ident(A) must be declared: "top" | "field:<struct>" | "-")
-const IDENT_KINDS: &[(&str, &str, &str)] = &[
+pub(crate) const IDENT_KINDS: &[(&str, &str, &str)] = &[
     ("fn", "fn @A@(k: int32) -> int32 { k + 1 }\nfn @B@(k: int32) -> int32 { k * 2 }\nfn main() -> unit { string_println(int32_to_string(@A@(10) * 100 + @B@(10))) }\n", "top"),
     ("struct", "struct @A@ { p: int32 }\nstruct @B@ { q: string }\nfn main() -> unit { let x = @A@ { p: 1 }; let y = @B@ { q: \"s\" }; string_println(int32_to_string(x.p) + y.q) }\n", "top"),
     ("enum", "enum @A@ { Aa, Ab(int32) }\nenum @B@ { Ba(string) }\nfn main() -> unit { let x = @A@::Ab(3); let y = @B@::Ba(\"t\"); let n = match x { @A@::Aa => 0, @A@::Ab(v) => v, }; let m = match y { @B@::Ba(w) => w, }; string_println(int32_to_string(n) + m) }\n", "top"),
